@@ -88,3 +88,49 @@ Example C13_engines_agree_without_pruning :
   | Ok (d, _) => flist_same d (fallback_mnn (X := Fx) false W_mnn 0%Z)
   | Err _ => false end = true.
 Proof. vm_compute. reflexivity. Qed.
+
+(* ---- the pruning metrics of the pure-Python engine (misc/mnn.py, misc/pruning_cd.py), exact arithmetic with IEEE rules
+   for +inf, -inf and NaN: the SAME Gallina terms fallback_mnn / fallback_pcd that are run bit-for-bit against the
+   implementation on binary64.  For every finite front, every number of removals (any integer): one value per point,
+   every value a non-negative rational or +inf - never NaN (in particular never 0 * inf), never negative -, and for every
+   objective (constant or not) the first holder of its minimum and the first holder of its maximum are at +inf. ---- *)
+From PV Require Import Proofs.FallbackP.
+
+Theorem C13_mnn_fallback_wellformed :
+  forall twonn (F : list (list eq)) m (n_remove : Z), fin_matrix F m -> (2 <= m)%nat -> length (hd [] F) = m ->
+    length (fallback_mnn (X := EQx) twonn F n_remove) = length F /\ Forall good (fallback_mnn (X := EQx) twonn F n_remove).
+Proof. exact fallback_mnn_wellformed. Qed.
+Print Assumptions C13_mnn_fallback_wellformed.
+
+Theorem C13_mnn_fallback_extremes_infinite :
+  forall twonn (F : list (list eq)) m (n_remove : Z) j, fin_matrix F m -> (2 <= m)%nat -> length (hd [] F) = m -> (j < m)%nat ->
+    exists a b, holds_min (col (X := EQx) F j) a /\ holds_max (col (X := EQx) F j) b /\
+                nth a (fallback_mnn (X := EQx) twonn F n_remove) ENaN = PInf /\
+                nth b (fallback_mnn (X := EQx) twonn F n_remove) ENaN = PInf.
+Proof. exact fallback_mnn_extremes. Qed.
+Print Assumptions C13_mnn_fallback_extremes_infinite.
+
+Theorem C13_pcd_fallback_wellformed :
+  forall (F : list (list eq)) m (n_remove : Z), fin_matrix F m -> (1 <= m)%nat -> length (hd [] F) = m ->
+    length (fallback_pcd (X := EQx) F n_remove) = length F /\ Forall good (fallback_pcd (X := EQx) F n_remove).
+Proof. exact fallback_pcd_wellformed. Qed.
+Print Assumptions C13_pcd_fallback_wellformed.
+
+Theorem C13_pcd_fallback_extremes_infinite :
+  forall (F : list (list eq)) m (n_remove : Z) j, fin_matrix F m -> (1 <= m)%nat -> length (hd [] F) = m -> (j < m)%nat ->
+    exists a b, holds_min (col (X := EQx) F j) a /\ holds_max (col (X := EQx) F j) b /\
+                nth a (fallback_pcd (X := EQx) F n_remove) ENaN = PInf /\
+                nth b (fallback_pcd (X := EQx) F n_remove) ENaN = PInf.
+Proof. exact fallback_pcd_extremes. Qed.
+Print Assumptions C13_pcd_fallback_extremes_infinite.
+
+(* non-vacuity: a 5-point front with pruning; a front with a constant objective (its NaN column contributes 0) *)
+Definition shown (e : eq) : option Q := match e with Fin q => Some (Qred q) | PInf => None | _ => Some (-1 # 1)%Q end.
+Definition W5 : list (list eq) := [[Fin 0; Fin 4]; [Fin 1; Fin 3]; [Fin 2; Fin 1]; [Fin 3; Fin (1 # 2)]; [Fin 4; Fin 0]].
+Example C13_fallback_nonvacuous :
+  map shown (fallback_mnn (X := EQx) false W5 2%Z) = [None; Some (5 # 128); Some (25 # 256); Some (25 # 4096); None]%Q /\
+  map shown (fallback_mnn (X := EQx) true W5 1%Z) = [None; Some (5 # 128); Some (25 # 1024); Some (25 # 4096); None]%Q /\
+  map shown (fallback_pcd (X := EQx) W5 2%Z) = [None; Some (5 # 8); Some (3 # 4); Some (3 # 8); None]%Q /\
+  map shown (fallback_pcd (X := EQx) [[Fin 0; Fin 4; Fin 7]; [Fin 1; Fin 3; Fin 7]; [Fin 2; Fin 1; Fin 7]; [Fin 4; Fin 0; Fin 7]] 0%Z)
+    = [None; Some (5 # 12); Some (1 # 2); None]%Q.
+Proof. repeat split; vm_compute; reflexivity. Qed.
